@@ -91,7 +91,7 @@ func runC12(c *Ctx) {
 	seal := seals[0]
 	payloadP, passP := enc.SSA.Params[0].Name(), enc.SSA.Params[1].Name()
 	nonce := seal.X.Args[2]
-	nb, okNonce := Match(Op("slice", "", BindP("h", Call("dhash.sha256Multiple")), Any(), Const(nonceLen)), nonce)
+	nb, okNonce := Match(Op("slice", "", BindP("h", c.RoleCall("dhash.multi")), Any(), Const(nonceLen)), nonce)
 	if okNonce {
 		// variadic payloads: prefix, length, payload, passphrase — collect the stored elements
 		elems := variadicElems(c, nb["h"].Args[1])
@@ -140,7 +140,7 @@ func runC12(c *Ctx) {
 		c.Check(n1 && n2 && open.X.Args[4].Op == "nil" && seal.X.Args[4].Op == "nil", "C12.D4-directions-agree", "EncryptAES ≍ DecryptAES › operands", open.In.Pos(), "Open(nonce, payload) mirrors Seal(nonce, payload), no additional data on either side", "Seal and Open disagree on nonce/payload/additional data")
 	}
 	// key derivation: same function on the passphrase parameter, hashing the whole passphrase
-	kd := c.Func(dhashPkg, "deriveKey")
+	kd := c.RoleFn("dhash.derive")
 	if kd == nil {
 		c.Unk("C12.D4-directions-agree", "dhash.deriveKey", token.NoPos, "not found")
 	} else {
@@ -149,7 +149,7 @@ func runC12(c *Ctx) {
 			ok := len(nc) == 1
 			if ok {
 				pass := f.SSA.Params[len(f.SSA.Params)-1].Name()
-				_, ok = Match(Call("dhash.deriveKey", Op("param", pass)), nc[0].X.Args[0])
+				_, ok = Match(c.RoleCall("dhash.derive", Op("param", pass)), nc[0].X.Args[0])
 			}
 			c.Check(ok, "C12.D4-directions-agree", f.Name+" › key", f.SSA.Pos(), "AES key = deriveKey(passphrase parameter)", "cipher key is not deriveKey(passphrase)")
 		}
@@ -160,7 +160,7 @@ func runC12(c *Ctx) {
 				pp := Op("param", kd.SSA.Params[0].Name())
 				whole := Or(
 					Call("dhash.SHA256", Op("builtin", "append", Op("global", "dhash.deriveKeyPrefix"), pp)),
-					Call("dhash.sha256Multiple", Any(), Somewhere(pp)),
+					c.RoleCall("dhash.multi", Any(), Somewhere(pp)),
 				)
 				_, okKD = Match(whole, x)
 			}
